@@ -12,6 +12,14 @@ let otype_of_int = function
 let mkfmt ty vs bits sh dl =
   { Codec.ty = otype_of_int ty; vsize = cz_of_int vs; bits = cz_of_int bits; shift = cz_of_int sh; discard = cz_of_int dl }
 
+(* argv[1]: the Thumb-2 branch formats as after fixes/C17-thumb32-branch-formats.patch (T32FixModel);
+   anything else: the pinned tree (OffsetModel). tools/checks/c17.py probes the tree and chooses. *)
+let variant = if Array.length Sys.argv > 1 then Sys.argv.(1) else "pp"   (* "pp" | "fp" | "pf" | "ff": B/BL/BLX packer, B<c> packer; p = pinned, f = fixed *)
+let fb = String.length variant = 2 && variant.[0] = 'f'
+let fc = String.length variant = 2 && variant.[1] = 'f'
+let write_offset f old off = Codec.write_offset_var fb fc f old off
+
+let nlist = [2; 7; 8; 9; 12; 14; 16; 19; 21; 24; 25; 26; 31; 32; 33; 48; 63; 64]
 let two64 = Z.shift_left Z.one 64
 let to_i64 (x : Z.t) = Z.signed_extract x 0 64
 
@@ -30,7 +38,7 @@ let () =
         let off = ref (Z.of_string lo) in
         let h = ref 0 and acc = ref 0 in
         for _ = 1 to cnt do
-          (match Codec.write_offset f old (cz_of_z !off) with
+          (match write_offset f old (cz_of_z !off) with
            | Some w ->
              let w = z_of_cz w in
              incr acc;
@@ -43,7 +51,7 @@ let () =
         Printf.printf "R %d %d\n" !acc !h
       | "V" :: ty :: vs :: bits :: sh :: dl :: off :: old :: _ ->
         let f = mkfmt (int_of_string ty) (int_of_string vs) (int_of_string bits) (int_of_string sh) (int_of_string dl) in
-        (match Codec.write_offset f (cz_of_string old) (cz_of_string off) with
+        (match write_offset f (cz_of_string old) (cz_of_string off) with
          | Some w -> Printf.printf "V 1 %s\n" (string_of_cz w)
          | None -> Printf.printf "V 0 %s\n" old)
       | "L" :: imm :: width :: _ ->
@@ -71,6 +79,37 @@ let () =
         let n = List.length ws in
         let ws = List.map string_of_cz ws @ ["0"; "0"; "0"; "0"] in
         Printf.printf "M %d %s %s %s %s\n" n (List.nth ws 0) (List.nth ws 1) (List.nth ws 2) (List.nth ws 3)
+      | "X" :: kind :: x :: a :: b :: _ ->
+        let k = match int_of_string kind with
+          | 0 | 1 | 2 -> Codec.Bfx | 3 | 4 | 5 | 6 -> Codec.Bfi | 7 | 8 | 9 -> Codec.Bfm | 10 -> Codec.ShLsl | 11 | 12 -> Codec.ShLsr
+          | _ -> failwith "kind" in
+        let size = if x = "1" then 64 else 32 in
+        (match Codec.encode_bitfield k (cz_of_int size) (cz_of_string a) (cz_of_string b) with
+         | Some (r, s) -> Printf.printf "X 1 %s %s %s %s\n" x x (string_of_cz r) (string_of_cz s)
+         | None -> print_endline "X 0 0 0 0 0")
+      | "E" :: w :: off :: nb :: _ ->
+        (* the C++ argument is int32_t(off) / int64_t(off): reduce to the type first *)
+        let wi = int_of_string w in
+        let o = Z.signed_extract (Z.of_string off) 0 wi in
+        let ok = if wi = 32 then Codec.is_encodable_offset_32 (cz_of_z o) (cz_of_string nb)
+                 else Codec.is_encodable_offset_64 (cz_of_z o) (cz_of_string nb) in
+        Printf.printf "E %d\n" (if ok then 1 else 0)
+      | "N" :: kind :: n :: x :: _ ->
+        let ni = int_of_string n in
+        if not (List.mem ni nlist) then print_endline "N -1" else begin
+          let x = Z.of_string x in
+          let n = cz_of_string n in
+          let c64 = cz_of_int 64 and c32 = cz_of_int 32 in
+          let r = match kind with
+            | "0" -> Codec.is_int_n_signed c64 n (cz_of_z x)
+            | "1" -> Codec.is_int_n_unsigned c64 n (cz_of_z x)
+            | "2" -> Codec.is_uint_n_signed c64 n (cz_of_z x)
+            | "3" -> Codec.is_uint_n_unsigned c64 n (cz_of_z x)
+            | "4" -> Codec.is_int_n_signed c32 n (cz_of_z (Z.signed_extract x 0 32))
+            | "5" -> Codec.is_uint_n_signed c32 n (cz_of_z (Z.signed_extract x 0 32))
+            | _ -> failwith "kind" in
+          Printf.printf "N %d\n" (if r then 1 else 0)
+        end
       | "H" :: sz :: idx :: _ ->
         (match Codec.encode_lmh (cz_of_string sz) (cz_of_string idx) with
          | Some ((lm, h), mx) -> Printf.printf "H 1 %s %s %s\n" (string_of_cz lm) (string_of_cz h) (string_of_cz mx)
